@@ -619,6 +619,12 @@ pub enum ScanError {
         index: usize,
     },
 
+    /// A block-level or transaction-level field of a compact block (the block hash, the previous
+    /// block hash, the block height, a transaction identifier or a transaction index) was
+    /// improperly encoded. `at_height` is the block's height, saturated to `u32::MAX` if the height
+    /// itself is not representable.
+    BlockEncodingInvalid { at_height: BlockHeight },
+
     /// The hash of the parent block given by a proposed new chain tip does not match the hash of
     /// the current chain tip.
     PrevHashMismatch { at_height: BlockHeight },
@@ -668,6 +674,7 @@ impl ScanError {
     pub fn is_continuity_error(&self) -> bool {
         match self {
             EncodingInvalid { .. } => false,
+            BlockEncodingInvalid { .. } => false,
             PrevHashMismatch { .. } => true,
             BlockHeightDiscontinuity { .. } => true,
             TreeSizeMismatch { .. } => true,
@@ -681,6 +688,7 @@ impl ScanError {
     pub fn at_height(&self) -> BlockHeight {
         match self {
             EncodingInvalid { at_height, .. } => *at_height,
+            BlockEncodingInvalid { at_height } => *at_height,
             PrevHashMismatch { at_height } => *at_height,
             BlockHeightDiscontinuity { new_height, .. } => *new_height,
             TreeSizeMismatch { at_height, .. } => *at_height,
@@ -702,6 +710,10 @@ impl fmt::Display for ScanError {
             } => write!(
                 f,
                 "{pool_type:?} output {index} of transaction {txid} was improperly encoded."
+            ),
+            BlockEncodingInvalid { at_height } => write!(
+                f,
+                "The compact block at height {at_height} has an improperly encoded block hash, height, transaction ID or transaction index."
             ),
             PrevHashMismatch { at_height } => write!(
                 f,
